@@ -12,7 +12,9 @@ import (
 	"github.com/google/badwolf/bql/lexer"
 	"github.com/google/badwolf/bql/semantic"
 	"github.com/google/badwolf/bql/table"
+	"github.com/google/badwolf/triple"
 	"github.com/google/badwolf/triple/literal"
+	"github.com/google/badwolf/triple/predicate"
 )
 
 type jconst struct {
@@ -176,7 +178,7 @@ var literalTexts = []string{
 	`"1e+30"^^type:float64`, `"ab"^^type:text`, `"abc"^^type:text`, `"ab c"^^type:text`, `"a"^^type:text`, `"b"^^type:text`, `"u"^^type:text`,
 	`""^^type:text`, `"true"^^type:bool`, `"false"^^type:bool`, `"[0 60]"^^type:blob`, `"x"^^type:int64`, `"zeta"^^type:text`, `"k1"^^type:text`,
 }
-var nodeTexts = []string{`/u<a>`, `/u<b>`, `/t<a>`, `/u<ab>`, `/u/x<al>`, `/u<al>`, `/ux<a>`, `/t<x y>`}
+var nodeTexts = []string{`/u<a>`, `/u<b>`, `/t<a>`, `/u<ab>`, `/u/x<al>`, `/u<al>`, `/ux<a>`, `/t<ab>`, `/ta<b>`, `/t<x y>`}
 var timeTexts = []string{`2020-01-01T00:00:00Z`, `2020-01-01T00:00:01Z`, `2019-12-31T23:30:00Z`, `2020-01-01T01:00:00+01:00`, `2020-01-01T00:00:00.5Z`, `1999-12-31T23:59:59Z`}
 var predTexts = []string{`"p"@[]`, `"q"@[]`, `"knows"@[]`, `"p"@[2020-01-01T00:00:00Z]`}
 
@@ -523,7 +525,7 @@ func typedTokens(r *rand.Rand, binds []string, depth int) []*lexer.Token {
 		case 0:
 			rhs = tkn(lexer.ItemBinding, binds[r.Intn(len(binds))])
 		case 1:
-			rhs = tkn(lexer.ItemNode, pickS(r, nodeTexts[:4]))
+			rhs = tkn(lexer.ItemNode, pickS(r, nodeTexts[:9]))
 		case 2:
 			rhs = tkn(lexer.ItemTime, pickS(r, timeTexts))
 		case 3:
@@ -704,5 +706,58 @@ func replay13() []replayResult {
 	t1, t2 := mustTime("2020-01-01T00:00:00+01:00"), mustTime("2019-12-31T23:30:00Z")
 	add("C13-anchor-zone-bindings", evalOne([]*lexer.Token{tkn(lexer.ItemBinding, "?a"), tkn(lexer.ItemLT, "<"), tkn(lexer.ItemBinding, "?b")},
 		table.Row{"?a": &table.Cell{T: &t1}, "?b": &table.Cell{T: &t2}}), "false")
+	return out
+}
+
+// genE2E13Seq: TWO statements, one after the other in this process, over one graph; their HAVING clauses differ only in
+// the letter case of a constant (text "abc" / "ABC", node /u<alice> / /u<Alice>): each must be evaluated for what it says.
+func genE2E13Seq(r *rand.Rand) []e2eCase {
+	ctx := context.Background()
+	pv, _ := predicate.NewImmutable("v")
+	var ts []*triple.Triple
+	for _, s := range [][2]string{{"/u", "alice"}, {"/u", "Alice"}, {"/u", "bob"}, {"/U", "alice"}} {
+		for _, o := range []string{"abc", "ABC", "Abc", "x"} {
+			if r.Intn(3) != 0 {
+				t, _ := triple.New(mustNode(s[0], s[1]), pv, triple.NewLiteralObject(mustLit(literal.Text, o)))
+				ts = append(ts, t)
+			}
+		}
+	}
+	st := newGraph(ctx, "?g", ts)
+	variants := [][2][]*lexer.Token{
+		{{tkn(lexer.ItemBinding, "?o"), tkn(lexer.ItemEQ, "="), tkn(lexer.ItemLiteral, `"abc"^^type:text`)},
+			{tkn(lexer.ItemBinding, "?o"), tkn(lexer.ItemEQ, "="), tkn(lexer.ItemLiteral, `"ABC"^^type:text`)}},
+		{{tkn(lexer.ItemBinding, "?s"), tkn(lexer.ItemEQ, "="), tkn(lexer.ItemNode, `/u<alice>`)},
+			{tkn(lexer.ItemBinding, "?s"), tkn(lexer.ItemEQ, "="), tkn(lexer.ItemNode, `/u<Alice>`)}},
+		{{tkn(lexer.ItemBinding, "?o"), tkn(lexer.ItemLT, "<"), tkn(lexer.ItemLiteral, `"abc"^^type:text`)},
+			{tkn(lexer.ItemBinding, "?o"), tkn(lexer.ItemLT, "<"), tkn(lexer.ItemLiteral, `"Abc"^^type:text`)}},
+		{{tkn(lexer.ItemNot, "not"), tkn(lexer.ItemBinding, "?s"), tkn(lexer.ItemEQ, "="), tkn(lexer.ItemNode, `/U<alice>`)},
+			{tkn(lexer.ItemNot, "not"), tkn(lexer.ItemBinding, "?s"), tkn(lexer.ItemEQ, "="), tkn(lexer.ItemNode, `/u<alice>`)}},
+	}
+	pair := variants[r.Intn(len(variants))]
+	if r.Intn(2) == 0 {
+		pair[0], pair[1] = pair[1], pair[0]
+	}
+	var out []e2eCase
+	baseQ := `SELECT ?s, ?o FROM ?g WHERE {?s "v"@[] ?o};`
+	base, _ := runQuery(ctx, st, baseQ)
+	for _, toks := range pair {
+		c := e2eCase{Mode: "e2e13", Shape: "sequence", Triples: tripleStrings(ts), BaseQ: baseQ, Base: base}
+		having := tokensText(toks, r)
+		c.Q = `SELECT ?s, ?o FROM ?g WHERE {?s "v"@[] ?o} HAVING ` + having + ";"
+		res, stm := runQuery(ctx, st, c.Q)
+		c.Res = res
+		ex := e2e13Extra{Having: having}
+		for _, t := range toks {
+			ex.Tokens = append(ex.Tokens, renderTok(t))
+		}
+		if stm != nil {
+			for _, ce := range stm.HavingExpression() {
+				ex.TokensSeen = append(ex.TokensSeen, renderTok(ce.Token()))
+			}
+		}
+		c.Extra = ex
+		out = append(out, c)
+	}
 	return out
 }
